@@ -6,6 +6,7 @@ func init() {
 		Technique:   "panic inventory over first-party evaluation code (explicit panics shown dead by exhaustiveness / constant-table arguments, unchecked assertions justified by the heap protocol, constant regexps, guarded indexes, non-zero divisors) plus error-propagation rules on builders and parser",
 		Explanation: "PARTIAL by design: decides that the listed panic sources cannot fire for any input – explicit panics are dead, type switches are exhaustive or erroring, unchecked assertions follow from container/heap usage, MustCompile patterns compile, the palette/first/last/quantile/heap indexes are guarded, integer divisors are non-zero, builders test every callee error and never return (nil, nil), nested JSON elements are used only when present – and that user-input mistakes in the parser and builders reach failure exits. It does NOT decide termination or general index safety.",
 		Decided: []string{
+			"PF-PROGRESS scanner loops: with the scanner at EOF no loop goes round again; PF-BOUNDS: index/slice bounds derived from search results are used only under a test of the value",
 			"PF-PROGRESS: every way round every loop of the evaluation, parsing and rendering code changes a loop-carried variable or has an observable effect (necessary for termination)",
 			"PF-PANIC: buildLabelPredicate's default arm unreachable (all implementers have a case); every sprig function name requested by tmplFunctions exists in sprig's genericMap literal",
 			"PF-ASSERT: unchecked assertions only in container/heap adapters whose Push sites all push the asserted type",
